@@ -858,6 +858,7 @@ class ImplSpec:
         self.loops = {}
         self.rewrites = []
         self.silent = []
+        self.borrowprobes_at = []   # (fn, tags, regex of the foreign call, place that must be lent at that call)
         self.yieldasserts = []   # (fn, regex of the call that hands control to foreign code, assertion)
         self.borrowprobes = {}   # (fn, loop ordinal) -> place expression that must be LENT while the loop runs
         self.frames = []      # (fn, field, type): by-value method must leave this cell field untouched
@@ -998,6 +999,19 @@ def process_fn(fn, spec, handle, stats, canary):
             raise ExtractError("declared rewrite on %s no longer matches exactly once: %s" % (name, old))
         body = body[: ms[0].start()] + new + body[ms[0].end():]
         stats["declared_rewrites"] += 1
+    # borrow probe at a call (lock scope): in probe mode an immutable use of the cell is placed right before
+    # the statement that calls out; the borrow checker must reject it (the cell is mutably lent there)
+    if PROBE_MODE:
+        for (fname, tags_, rx_s, place_) in getattr(spec, "borrowprobes_at", []):
+            if fname != name:
+                continue
+            masked = mask_trivia(body)
+            ms_ = list(re.finditer(rx_s, masked))
+            if not ms_:
+                raise ExtractError("borrow probe: call site of %s not found: %s" % (name, rx_s))
+            m_ = ms_[0]
+            k_ = max(masked.rfind(";", 0, m_.start()), masked.rfind("{", 0, m_.start()), masked.rfind("}", 0, m_.start()))
+            body = body[:k_ + 1] + "\n        /*BORROWPROBE %s.call %s*/ let bp_ = &(%s);" % (name, tags_, place_) + body[k_ + 1:]
     # re-entry discipline: a proof assertion right before the statement that hands control to foreign
     # code (found by a declared regex, so that it survives renamings of the arguments); a yield point
     # that can no longer be found is a lost anchor (exit 2)
@@ -1581,6 +1595,11 @@ def generate_(template_path, variant, canary=False):
                     # @@yieldassert <fn> :: <regex of the foreign call> :: <spec expression> [// comment]
                     parts_ = l.split(" :: ", 2)
                     spec.yieldasserts.append((t[1], parts_[1].strip(), parts_[2].strip()))
+                    i += 1
+                elif t[0] == "@@borrowprobe_at":
+                    parts_ = l.split(" :: ", 2)
+                    tg_ = re.search(r"\[((?:C\d+\s*,?\s*)+)\]", parts_[0])
+                    spec.borrowprobes_at.append((t[1], tg_.group(1).replace(" ", "") if tg_ else "-", parts_[1].strip(), parts_[2].strip()))
                     i += 1
                 elif t[0] == "@@borrowprobe":
                     tg_ = re.search(r"\[((?:C\d+\s*,?\s*)+)\]", l.split("::", 1)[0])
